@@ -135,9 +135,20 @@ def sib_export(ctx: Ctx) -> List[Ob]:
             calls = [norm(c.args[0]) for c in ast.walk(r) if isinstance(c, ast.Call) and norm(c.func) == kname and c.args]
             ok = calls[:2] == [f"{ev}._parent", ev] if len(calls) >= 2 else (False if kf is not None else None)
         O(f, f"{q}: an edge runs from key(n._parent) to key(n)", ok, "the edge must connect the parent's key to the child's key", el)
-        rys = [c for c in exit_cases(ctx, f, ("yield",)) if cond_texts(c.conds) == {flag} and not_after(ctx, f, c.stmt, nl) and c.value is not None
-               and any(isinstance(x, ast.Name) and x.id == "node" for x in ast.walk(resolve_expr(ctx, f, c.stmt, c.value, keep=[kname])))]
-        O(f, f"{q}: the root node is defined iff {flag}", len(rys) == 1, "root definition must follow the flag")
+        rall = [c for c in exit_cases(ctx, f, ("yield",)) if not_after(ctx, f, c.stmt, nl) and c.value is not None
+                and any(isinstance(x, ast.Name) and x.id == "node" for x in ast.walk(resolve_expr(ctx, f, c.stmt, c.value, keep=[kname])))
+                and not any(isinstance(x, ast.Attribute) and x.attr == "tree" for x in ast.walk(c.value))]
+        rys = [c for c in rall if flag in cond_texts(c.conds)]
+        others = [sorted(cond_texts(c.conds) - {flag}) for c in rys]
+        if len(rys) == 1 and others == [[]]:
+            okr_ = True
+        elif len(rys) == 2 and len(others[0]) == 1 and len(others[1]) == 1 and {others[0][0], others[1][0]} in ({x_, "not " + x_} for x_ in (others[0][0], others[1][0])):
+            okr_ = True  # the same definition spelled once per key mode
+        elif not rall or any(flag not in cond_texts(c.conds) for c in rall):
+            okr_ = False
+        else:
+            okr_ = None
+        O(f, f"{q}: the root node is defined iff {flag}", okr_, "root definition must follow the flag")
     # dot specifics
     if "node_to_dot" in shapes:
         f, kn, nl, el, nv, ev = shapes["node_to_dot"]
@@ -195,6 +206,22 @@ def sib_export(ctx: Ctx) -> List[Ob]:
         typed = find_under(ctx, g, "$t = DEFAULT_EDGE_TEMPLATE_TYPED", [(f"getattr({to}, 'kind', None)", True)])
         plain = find_under(ctx, g, "$t = DEFAULT_EDGE_TEMPLATE", [(f"getattr({to}, 'kind', None)", False)])
         ok = (len(typed) == 1 and len(plain) == 1) or has(f"DEFAULT_EDGE_TEMPLATE_TYPED if getattr({to}, 'kind', None) else DEFAULT_EDGE_TEMPLATE", g.node)
+        if not ok:
+            # canonical spelling: the template is used where it was chosen
+            tmpl = {True: [], False: []}
+            for x in ast.walk(g.node):
+                if isinstance(x, ast.Name) and x.id in ("DEFAULT_EDGE_TEMPLATE_TYPED", "DEFAULT_EDGE_TEMPLATE"):
+                    ts_ = cond_texts(path_conds(ctx, g, x))
+                    pos = f"getattr({to}, 'kind', None)" in ts_
+                    neg = f"not getattr({to}, 'kind', None)" in ts_
+                    if pos != neg:
+                        tmpl[pos].append(x.id)
+                    else:
+                        tmpl[True].append("?")
+            if tmpl[True] == ["DEFAULT_EDGE_TEMPLATE_TYPED"] and tmpl[False] == ["DEFAULT_EDGE_TEMPLATE"]:
+                ok = True
+            elif "?" in tmpl[True]:
+                ok = None
     O(f, "mermaid: the default edge is labelled with the child's kind iff it has one", ok, "typed trees label edges with the child's kind")
     # TypedNode.to_dot edge labels
     f = m.func("TypedNode.to_dot")
